@@ -145,6 +145,50 @@ def h_mutations(path, op, sites, vocab):
     return h
 
 
+# ------------------------------------------------------------------ statement templates with a hole
+NAMES = ["ego", "workspace", "globalParameters", "self", "str", "x", "simulation", "new", "behavior"]
+NAME_TEMPLATES = [
+    "del {}", "del x, {}", "{} += 1", "{} = 3", "a = {} = 3", "a, {} = 1, 2", "for {} in y:\n    pass", "with a as {}:\n    pass",
+    "import m as {}", "from m import {}", "from m import n as {}", "def {}():\n    pass", "class {}:\n    pass", "def f({}):\n    pass",
+    "def f(*{}):\n    pass", "def f(a, {}=1):\n    pass", "g = lambda {}: 0", "l = [0 for {} in y]", "d = {{k: 0 for k, {} in y}}", "n = ({} := 3)",
+    "try:\n    pass\nexcept E as {}:\n    pass", "global {}", "{}: int = 3", "{}.x = 1", "{}[0] = 1", "del {}.x", "del {}[0]",
+    "match v:\n    case {}:\n        pass", "match v:\n    case [a, *{}]:\n        pass", "match v:\n    case {{'k': {}}}:\n        pass",
+    "behavior B():\n    del {}\n    wait", "behavior B():\n    {} += 1\n    wait", "behavior B():\n    for {} in y:\n        wait",
+    "behavior B({}):\n    wait", "scenario S():\n    setup:\n        del {}", "monitor M():\n    {} = 1\n    wait",
+    "class C(Object):\n    {}: 1", "ego = new Object with {} 3", "param {} = 3", "record 1 as {}", "require True as {}",
+]
+NUMBERS = ["0x1", "1j", "0o7", "0b11", "1e400", "1_0", ".5", "5.", "1E-3", "0", "1", "2", "0.5", "00", "1e-400", "0_1", "1__0", "0xg", "1.5j"]
+NUMBER_TEMPLATES = [
+    "ego = new Object\nrequire[{}] True", "ego = new Object\nrecord 1 as {}", "ego = new Object\nrequire True as {}",
+    "ego = new Object\nterminate after {} steps", "ego = new Object\nterminate after {} seconds",
+    "behavior B():\n    wait for {} steps\nego = new Object", "behavior B():\n    wait for {} seconds\nego = new Object",
+    "behavior A():\n    wait\nbehavior B():\n    do A() for {} steps\nego = new Object",
+    "ego = new Object\nrecord 1 every {} steps", "ego = new Object at ({}, {} deg)", "ego = new Object facing {} deg",
+    "x = {}", "x = -{} + {}j", "ego = new Object\nmutate ego by {}", "ego = new Object\nrecord 1 after {} seconds as r",
+    "match v:\n    case {}:\n        pass", "match v:\n    case -{} + {}:\n        pass",
+]
+CONVERSIONS = ["s", "r", "a", "sr", "ra", "sra", "x", "rr", "", " r", "R", "1", "s ", "ss"]
+FSTRING_TEMPLATES = ["v = f'{{x!{}}}'", "v = f'{{x!{}:>4}}'", "v = f'{{x = !{}}}'", "v = f'a{{x!{}}}b{{y}}'", 'v = f"""{{x!{}}}"""',
+                     "v = rf'\\d{{x!{}}}'", "v = f'{{x:{{w}}!{}}}'", "v = f'{{f\"{{y!{}}}\"}}'"]
+
+
+def h_templates(templates, fills):
+    def h(ctx):
+        t = ctx.choice("template", templates)
+        v = ctx.choice("fill", fills)
+        src = t.format(*([v] * t.count("{}"))) + "\n"
+        if ctx.symbolic:
+            from crosshair.tracers import NoTracing
+
+            with NoTracing():
+                kind, detail = front_end(src)
+        else:
+            kind, detail = front_end(src)
+        ctx.check("scenario-or-located-syntax-error", kind in ("ok", "syntax-error"), outcome=kind, detail=detail, source=src)
+
+    return h
+
+
 def expr_classes():
     import scenic.syntax.ast as S
 
@@ -197,42 +241,74 @@ STAGES = ["parse", "compile", "python-compile", "execute", "store"]
 
 
 def h_state_reset(ctx):
+    """A fault (or a genuine syntax error) at any stage of compiling the top-level file OR a module it imports
+    leaves the compiler state inactive, and the next compilation works."""
+    import shutil
+    import sys
+    import tempfile
+
+    import scenic
     import scenic.syntax.translator as T
     import scenic.syntax.veneer as veneer
 
     class Boom(Exception):
         pass
 
-    stage = ctx.choice("fault-stage", STAGES)
+    where = ctx.choice("where", ["top-level file", "imported module", "module imported by an imported module"])
+    stage = ctx.choice("fault-stage", STAGES + ["genuine-syntax-error"])
     kind = ctx.choice("exception", [Boom, ValueError, KeyboardInterrupt])
+    depth = {"top-level file": 1, "imported module": 2, "module imported by an imported module": 3}[where]
     names = {"parse": "parse_string", "compile": "compileScenicAST", "python-compile": "compileTranslatedTree",
              "execute": "executeCodeIn", "store": "storeScenarioStateIn"}
-    saved = getattr(T, names[stage])
+    d = tempfile.mkdtemp(prefix="c10_")
+    files = {"c10main.scenic": "import c10liba\nego = new Object\n", "c10liba.scenic": "import c10libb\na = 1\n", "c10libb.scenic": "b = 2\n"}
+    if stage == "genuine-syntax-error":
+        victim = ["c10main.scenic", "c10liba.scenic", "c10libb.scenic"][depth - 1]
+        files[victim] += "x = = 1\n"
+    for fn, txt in files.items():
+        with open(os.path.join(d, fn), "w") as f:
+            f.write(txt)
+    for m in [m for m in sys.modules if m.startswith("c10")]:
+        del sys.modules[m]
+    fired = []
+    saved = None
+    if stage != "genuine-syntax-error":
+        saved = getattr(T, names[stage])
+        calls = [0]
 
-    def faulty(*a, **k):
-        raise kind("injected")
+        def faulty(*a, **k):
+            calls[0] += 1
+            if calls[0] == depth:
+                fired.append(True)
+                raise kind("injected")
+            return saved(*a, **k)
 
-    setattr(T, names[stage], faulty)
+        setattr(T, names[stage], faulty)
     try:
         try:
-            import scenic
-
-            scenic.scenarioFromString("ego = new Object\n")
+            scenic.scenarioFromFile(os.path.join(d, "c10main.scenic"), mode2D=True)
             out = "completed"
         except BaseException as e:
             out = type(e).__name__
     finally:
-        setattr(T, names[stage], saved)
-    ctx.check("fault-propagates", out != "completed", stage=stage)
-    ctx.check("compiler-state-inactive-after-a-failed-compilation", not veneer.isActive(), stage=stage, exception=kind.__name__,
-              activity=veneer.activity)
+        if saved is not None:
+            setattr(T, names[stage], saved)
+        shutil.rmtree(d, ignore_errors=True)
+        for m in [m for m in sys.modules if m.startswith("c10")]:
+            del sys.modules[m]
+    if fired or stage == "genuine-syntax-error":
+        ctx.check("fault-propagates", out != "completed", stage=stage, where=where)
+    ctx.check("compiler-state-inactive-after-a-failed-compilation", not veneer.isActive(), stage=stage, where=where,
+              exception=kind.__name__, activity=veneer.activity, outcome=out)
     if veneer.isActive():  # do not poison later paths
         while veneer.activity > 0:
             veneer.deactivate()
-    import scenic
-
-    sc = scenic.scenarioFromString("ego = new Object\n")
-    ctx.check("next-compilation-works", sc is not None and not veneer.isActive())
+    try:
+        sc = scenic.scenarioFromString("param p = 1\nego = new Object\n", params={"p": 2}, mode2D=True)
+        nxt = "ok" if sc is not None and not veneer.isActive() else "veneer-active"
+    except BaseException as e:
+        nxt = type(e).__name__
+    ctx.check("next-compilation-works", nxt == "ok", outcome=nxt, stage=stage, where=where)
 
 
 def obligations(tier, seed):
@@ -251,6 +327,12 @@ def obligations(tier, seed):
                           {"classes": len(sc)}, [parser.ScenicParser.get_expr_name], [], system_replay=sys_replay_expr))
     obs.append(Obligation("state-reset-on-faults", h_state_reset, "veneer inactive after a fault at any compilation stage",
                           {"stages": STAGES}, [translator.compileStream, translator._scenarioFromStream], []))
+    tobs = [("tracked-and-reserved-names-in-binding-positions", NAME_TEMPLATES, NAMES), ("numeric-literal-forms", NUMBER_TEMPLATES, NUMBERS),
+            ("fstring-conversions", FSTRING_TEMPLATES, CONVERSIONS)]
+    for name, templates, fills in tobs:
+        obs.append(Obligation(f"templates[{name}]", h_templates(templates, fills), f"{len(templates)} statement templates x {len(fills)} fills",
+                              {"templates": len(templates), "fills": fills}, [parser.parse_string, compiler.compileScenicAST, translator.compileTranslatedTree], [],
+                              opts=dict(total_timeout=300.0, max_paths=4000), twin=False))
     for path in chosen:
         src = open(path).read()
         n = len(tokens_of(src))
